@@ -10,6 +10,7 @@ From I18n Require Import Model.Dates.
 From I18n Require Import Lib.Outcome Model.IntExpr Model.PluralForms Model.Tags Generated.UcdPrintable
   Model.Header Generated.HeaderFields Generated.SpecialDomains Generated.UcdHeader.
 From I18n Require Import Lib.Outcome Model.IntExpr Model.PluralForms Model.Ling Model.LingData.
+From I18n Require Import Lib.Outcome Model.IntExpr Model.PluralForms Model.MoParser.
 Extraction Language OCaml.
 Extraction "model.ml"
   IntExpr.parse_string IntExpr.pyeval IntExpr.codomain IntExpr.period
@@ -24,4 +25,5 @@ Extraction "model.ml"
   UcdHeader.re_word_ranges UcdHeader.re_digit_ranges UcdHeader.re_space_ranges
   Ling.parse_language Ling.parse_language_Z Ling.str_language Ling.fix_codes Ling.cli_language Ling.lookup_munched
   Ling.lcmessages_parent Ling.basename Ling.splitext Ling.lg_endswith Ling.s_dot_po Ling.check_language LingData.gen_cfg
+  MoParser.mo_run MoParser.mo_parse
   .
